@@ -195,7 +195,45 @@ func WitnessPath(fn *ssa.Function, from ssa.Instruction, target, avoid func(ssa.
 	if avoid != nil {
 		av = q.deepAvoid
 	}
-	return witnessPathRaw(fn, from, q.deepTarget, av)
+	return witnessFrom(fn, from, q, av, 0)
+}
+
+// witnessFrom starts the search at `from`, which may lie inside an eligible
+// helper of fn: the search then continues after the helper's call sites.
+func witnessFrom(fn *ssa.Function, from ssa.Instruction, q *deepQ, av func(ssa.Instruction) bool, depth int) ssa.Instruction {
+	if from == nil {
+		return witnessPathRaw(fn, nil, q.deepTarget, av)
+	}
+	if _, isBS := from.(blockStart); isBS || from.Parent() == fn || depth > 4 {
+		return witnessPathRaw(fn, from, q.deepTarget, av)
+	}
+	h := from.Parent()
+	if h == nil || !Eligible(h) {
+		return witnessPathRaw(fn, from, q.deepTarget, av)
+	}
+	inner := func(i ssa.Instruction) bool {
+		switch i.(type) {
+		case *ssa.Return, *ssa.Panic:
+			return false
+		}
+		return q.deepTarget(i)
+	}
+	if w := witnessPathRaw(h, from, inner, av); w != nil {
+		return w
+	}
+	// can the helper return from here?
+	if witnessPathRaw(h, from, IsReturn, av) == nil {
+		return nil
+	}
+	for _, s := range sitesOf(h) {
+		if _, isDefer := s.(*ssa.Defer); isDefer {
+			continue
+		}
+		if w := witnessFrom(fn, s, q, av, depth+1); w != nil {
+			return w
+		}
+	}
+	return nil
 }
 
 // witnessPathRaw is the intra-procedural search.
